@@ -43,9 +43,25 @@ func WirePacket(r *rand.Rand, maxOpts int) ([]byte, *ref4.P4) {
 		hl = 16
 	}
 	e.CHAddr = append([]byte{}, b[28:28+hl]...)
-	fill := func(dst []byte) string {
+	overload := byte(0) // RFC 2131 option-overload bits for the fields that were filled with an option area
+	fill := func(dst []byte, bit byte) string {
 		n := len(dst)
-		switch r.IntN(4) {
+		switch r.IntN(5) {
+		case 4: // a well-formed option area ended by End (what a sender using option overload puts there); as a name
+			// (the only reading C04 gives these fields) it is the bytes up to the first NUL
+			k := 0
+			for k+3 < n-1 && r.IntN(4) != 0 {
+				code := []byte{12, 6, 15, 53, 82, 1, 3, 119, byte(1 + r.UintN(254))}[r.IntN(9)]
+				l := 1 + r.IntN(min(12, n-1-k-2))
+				dst[k], dst[k+1] = code, byte(l)
+				for i := 0; i < l; i++ {
+					dst[k+2+i] = byte(1 + r.UintN(255))
+				}
+				k += 2 + l
+			}
+			dst[k] = 255
+			overload |= bit
+			return string(dst[:k+1])
 		case 0: // full, no NUL
 			for i := range dst {
 				dst[i] = byte(1 + r.UintN(255))
@@ -67,8 +83,8 @@ func WirePacket(r *rand.Rand, maxOpts int) ([]byte, *ref4.P4) {
 			return string(dst[:k])
 		}
 	}
-	e.SName = fill(b[44:108])
-	e.File = fill(b[108:236])
+	e.SName = fill(b[44:108], 2)
+	e.File = fill(b[108:236], 1)
 	copy(b[236:240], ref4.Cookie)
 	if maxOpts < 0 {
 		return b, e // empty options area
@@ -110,6 +126,14 @@ func WirePacket(r *rand.Rand, maxOpts int) ([]byte, *ref4.P4) {
 			insts = append(insts, inst{code, v[:k]})
 			v = v[k:]
 		}
+	}
+	if overload != 0 && r.IntN(4) != 0 {
+		// option 52 announcing the overloaded fields (sometimes a value that names a field holding a plain name)
+		v := overload
+		if r.IntN(4) == 0 {
+			v = byte(1 + r.UintN(3))
+		}
+		insts = append(insts, inst{52, []byte{v}})
 	}
 	if r.IntN(2) == 0 {
 		r.Shuffle(len(insts), func(i, j int) { insts[i], insts[j] = insts[j], insts[i] })
